@@ -29,6 +29,8 @@ def main():
     except ModuleNotFoundError as e:
         print(f"no check for {pid}: {e}")
         return 2
+    from . import mc as _mc
+    _mc.COVERAGE = a.tier == "thorough"
     run = core.Run(pid, a.tier, level=getattr(mod, "LEVEL", "model_checking"))
     try:
         if a.replay:
